@@ -428,11 +428,21 @@ def record_template_traces(rnd: random.Random, size, ntraces: int, length: int, 
                 k = rnd.randrange(nkeys)
                 src, cls, engine = keyspec[k]
                 x = rnd.randint(0, 99)
-                if via_component:
-                    out, t = render_class(comps[k], x)
-                else:
-                    t = cached_template(src, template_cls=cls, engine=engine)
-                    out = t.render(Context({"x": x}))
+                try:
+                    if via_component:
+                        out, t = render_class(comps[k], x)
+                    else:
+                        t = cached_template(src, template_cls=cls, engine=engine)
+                        out = t.render(Context({"x": x}))
+                except Exception:  # noqa: BLE001 - the library under test raised: an observation (nothing is right), not a
+                    # failure of the harness; the trace ends here and is rejected
+                    ev = {"op": "compile", "k": k + 1, "obj": 0, "src_ok": False, "cls_ok": False, "eng_ok": False,
+                          "out_ok": False, "fwd": [-1]}
+                    if via_component:
+                        ev.update({"op": "render", "c": k + 1})
+                        del ev["k"]
+                    evs.append(ev)
+                    break
                 keep.append(t)
                 oid = ids.setdefault(id(t), len(ids) + 1)
                 fresh = cls(src, engine=engine).render(Context({"x": x}))
